@@ -13,7 +13,7 @@ use crate::*;
 use mmtk::util::heap::vm_layout::*;
 use mmtk::util::Address;
 use mmtk::verif_export::heap::{Map64, SpaceDescriptor, VMMap};
-use mmtk::verif_export::policy::{SFTMap, SFTSpaceMap};
+use mmtk::verif_export::policy::{SFTMap, SFTSpaceMap, SFTSparseChunkMap};
 
 fn addr(a: usize) -> Address {
     unsafe { Address::from_usize(a) }
@@ -41,6 +41,23 @@ pub fn c31_sft_space_map(s: &mut Src) {
     cov!(s, "address with bits above the mask", a >> 47 != 0);
 }
 
+/// `SFTSparseChunkMap` (one entry per chunk; used when spaces are discontiguous): an address is said
+/// to have an entry exactly when its chunk index is inside the table that `new()` allocates
+/// (`vm_layout().max_chunks()` entries) — `get_checked` indexes the table unchecked after this test.
+pub fn c31_sft_sparse_chunk_map(s: &mut Src) {
+    verif_set_vm_layout(VMLayout::new_64bit());
+    let m = SFTSparseChunkMap::verif_without_table();
+    let a = s.any_usize();
+    let has = m.has_sft_entry(addr(a));
+    let table_len = vm_layout().max_chunks();
+    let chunk = a >> LOG_BYTES_IN_CHUNK;
+    chk!(s, "an address with an entry indexes inside the sparse chunk table", !has || chunk < table_len);
+    chk!(s, "every address whose chunk is inside the table has an entry", has || chunk >= table_len);
+    cov!(s, "address in the first chunk beyond the table", chunk == table_len);
+    cov!(s, "address in the last chunk of the table", chunk + 1 == table_len);
+    core::mem::forget(m);
+}
+
 pub fn c31_map64_descriptor(s: &mut Src) {
     verif_set_vm_layout(VMLayout::new_64bit());
     let ext = vm_layout().log_space_extent;
@@ -65,4 +82,5 @@ pub fn c31_map64_descriptor(s: &mut Src) {
 harnesses! {
     #[kani::unwind(34)] #[kani::stub(alloc::fmt::format, crate::env::stub_format)] c31_sft_space_map; // timeout=600
     #[kani::unwind(34)] #[kani::stub(alloc::fmt::format, crate::env::stub_format)] c31_map64_descriptor; // timeout=600
+    #[kani::unwind(34)] #[kani::stub(alloc::fmt::format, crate::env::stub_format)] c31_sft_sparse_chunk_map; // timeout=600
 }
